@@ -220,25 +220,20 @@ def build_and_check(features, want_matrix=True, want_witnesses=True):
     """returns dict(matrix_cells=[..], failed_cells=set, witness={name: (expected, got)}, log=str, wall)"""
     scratch = tempfile.mkdtemp(prefix='asv-wit-')
     try:
-        os.makedirs(os.path.join(scratch, 'src'))
-        os.makedirs(os.path.join(scratch, 'examples'))
         feats = [f for f in features if f in ('weak', 'internal-test-strategies')]
-        toml = '''[package]
-name = "witness"
-version = "0.0.0"
-edition = "2021"
-
-[workspace]
-
-[dependencies]
-arc-swap = { path = "%s", features = [%s] }
-''' % (os.path.abspath(F.REPO), ', '.join('"%s"' % f for f in feats))
-        open(os.path.join(scratch, 'Cargo.toml'), 'w').write(toml)
+        dep = 'arc-swap = { path = "%s", features = [%s] }' % (os.path.abspath(F.REPO), ', '.join('"%s"' % f for f in feats))
+        open(os.path.join(scratch, 'Cargo.toml'), 'w').write('[workspace]\nmembers = ["matrix", "wit"]\nresolver = "2"\n')
+        for pkg in ('matrix', 'wit'):
+            os.makedirs(os.path.join(scratch, pkg, 'src'))
+            open(os.path.join(scratch, pkg, 'Cargo.toml'), 'w').write(
+                '[package]\nname = "%s"\nversion = "0.0.0"\nedition = "2021"\n\n[dependencies]\n%s\n' % ('witness' if pkg == 'matrix' else 'wit', dep))
+        os.makedirs(os.path.join(scratch, 'wit', 'examples'))
         src, names = gen_matrix(feats) if want_matrix else ('', [])
-        open(os.path.join(scratch, 'src', 'lib.rs'), 'w').write(src)
+        open(os.path.join(scratch, 'matrix', 'src', 'lib.rs'), 'w').write(src)
+        open(os.path.join(scratch, 'wit', 'src', 'lib.rs'), 'w').write('')
         if want_witnesses:
             for n, (exp, code) in WITNESSES.items():
-                open(os.path.join(scratch, 'examples', n + '.rs'), 'w').write(code)
+                open(os.path.join(scratch, 'wit', 'examples', n + '.rs'), 'w').write(code)
         lock = os.path.join(F.REPO, 'Cargo.lock')
         if os.path.exists(lock):
             shutil.copy(lock, os.path.join(scratch, 'Cargo.lock'))
@@ -246,9 +241,7 @@ arc-swap = { path = "%s", features = [%s] }
         env['CARGO_TARGET_DIR'] = os.path.join(scratch, 'target')
         env['CARGO_NET_OFFLINE'] = 'true'
         env.pop('RUSTC_WRAPPER', None)
-        cmd = ['cargo', '+nightly', 'check', '--offline', '--lib', '--message-format=json', '--keep-going']
-        if want_witnesses:
-            cmd = ['cargo', '+nightly', 'check', '--offline', '--lib', '--examples', '--message-format=json', '--keep-going']
+        cmd = ['cargo', '+nightly', 'check', '--offline', '--workspace', '--lib', '--examples', '--message-format=json', '--keep-going']
         p = subprocess.run(cmd, cwd=scratch, env=env, stdout=subprocess.PIPE, stderr=subprocess.PIPE, text=True)
         failed = set()
         wit_err = {n: set() for n in WITNESSES}
